@@ -16,6 +16,8 @@ enum Kind {
     GetClosest,
     GetPeers,
     PutImmutable,
+    /// get_immutable: the caller hangs up after the first value, the lookup goes on
+    GetImmutable,
 }
 
 fn show(n: &N) -> Value {
@@ -159,7 +161,7 @@ fn judge(r: &mut Report, case: &dyn Fn() -> Value, kind: Kind, target: [u8; 20],
                 r.violation("put/write-set-too-small", "the write went to fewer than min(20, responders) nodes", case(), json!({"wrote": k, "responders": resp.len()}));
             }
         }
-        Kind::GetPeers => {}
+        Kind::GetPeers | Kind::GetImmutable => {}
     }
     r.count(&format!("lookups/{kind:?}"));
     r.add("requests_of_lookups", lt.queried.len() as u64);
@@ -193,13 +195,16 @@ pub fn scenario(r: &mut Report, p: &Params) {
     for li in 0..p.lookups {
         r.eval();
         let origin: &Node = if rng.chance(1, 3) { &fresh } else { &net.nodes[rng.usize(net.nodes.len())] };
-        let kind = if li < 3 { Kind::PutImmutable } else { *rng.pick(&[Kind::FindNode, Kind::FindNode, Kind::GetClosest, Kind::GetClosest, Kind::GetClosest, Kind::GetPeers, Kind::PutImmutable]) };
+        let kind = if li < 3 { Kind::PutImmutable } else { *rng.pick(&[Kind::FindNode, Kind::FindNode, Kind::GetClosest, Kind::GetClosest, Kind::GetClosest, Kind::GetPeers, Kind::PutImmutable, Kind::GetImmutable]) };
         // target: random, or clustered near an existing id (long common prefix)
         let mut target: [u8; 20] = rng.array();
         let value = if rng.chance(1, 3) { rng.blob(900, 1000) } else { rng.blob(4, 30) }; // a third of the stored values are close to the 1000-byte limit: answers of 1.5 - 1.7 kB with 20 nodes listed
         if kind == Kind::PutImmutable {
             target = crate::sha1::immutable_target(&value);
             stored_targets.push(target);
+        } else if kind == Kind::GetImmutable && !stored_targets.is_empty() {
+            target = *rng.pick(&stored_targets);
+            r.count("lookups_on_stored_targets");
         } else if (kind == Kind::GetClosest || kind == Kind::FindNode) && !stored_targets.is_empty() && rng.chance(1, 2) {
             // a target that already holds data: the closest nodes answer with value-carrying replies
             target = *rng.pick(&stored_targets);
@@ -233,6 +238,12 @@ pub fn scenario(r: &mut Report, p: &Params) {
                 (w.block_on(async move { a.get_peers(tid).count().await }, bound).map(|_| vec![]), "get_peers")
             }
             Kind::PutImmutable => (w.block_on(a.put_immutable(&value), bound).map(|_| vec![]), "get"),
+            Kind::GetImmutable => {
+                // the call returns with the first value; the lookup behind it runs on until it is exhausted
+                let got = w.block_on(a.get_immutable(tid), bound).map(|_| vec![]);
+                w.run_for(4 * SEC);
+                (got, "get")
+            }
         };
         let trace = w.trace_from(0);
         w.set_trace(TraceLevel::Off);
@@ -471,6 +482,7 @@ pub fn scripted(r: &mut Report, seed: u64) {
     let socks: Vec<SockId> = ends.iter().map(|e| w.raw(e.1)).collect();
     {
         let (ends, knows, holders, socks, hidden, revealed, slow) = (ends.clone(), knows.clone(), holders.clone(), socks.clone(), hidden.clone(), revealed.clone(), slow.clone());
+        let value_for_get = value.clone();
         let mut rr = Rng::new(mix(seed, 0x5c21));
         w.set_responder(Some(Box::new(move |w, sock, d| {
             let Some(idx) = socks.iter().position(|s| *s == sock) else { return false };
@@ -506,6 +518,9 @@ pub fn scripted(r: &mut Report, seed: u64) {
                 if name != "find_node" {
                     rd.push(("token", B::bytes(b"tokn")));
                 }
+                if name == "get" && holders[idx] && t == center {
+                    rd.push(("v", B::Bytes(value_for_get.clone())));
+                }
                 if name == "get_peers" && holders[idx] {
                     rd.push(("values", B::List(vec![B::Bytes(addr_bytes(&SocketAddrV4::new(Ipv4Addr::new(99, 1, 1, idx as u8), 7000)))])));
                 }
@@ -524,9 +539,9 @@ pub fn scripted(r: &mut Report, seed: u64) {
     let lookups = 8;
     for li in 0..lookups {
         r.eval();
-        let kind = *rng.pick(&[Kind::FindNode, Kind::GetClosest, Kind::GetClosest, Kind::GetPeers, Kind::GetPeers, Kind::PutImmutable]);
+        let kind = *rng.pick(&[Kind::FindNode, Kind::GetClosest, Kind::GetClosest, Kind::GetPeers, Kind::GetPeers, Kind::PutImmutable, Kind::GetImmutable]);
         let mut target = center;
-        if kind != Kind::PutImmutable {
+        if kind != Kind::PutImmutable && kind != Kind::GetImmutable {
             match rng.usize(4) {
                 0 => target = rng.array(),
                 1 => target[19 - rng.usize(4)] ^= 1 << rng.usize(8),
@@ -556,6 +571,12 @@ pub fn scripted(r: &mut Report, seed: u64) {
                 (w.block_on(async move { a.get_peers(tid).count().await }, bound).map(|_| vec![]), "get_peers")
             }
             Kind::PutImmutable => (w.block_on(async move { a.put_immutable(&v2).await }, bound).map(|_| vec![]), "get"),
+            Kind::GetImmutable => {
+                let got = w.block_on(async move { a.get_immutable(tid).await }, bound).map(|_| vec![]);
+                w.run_for(4 * SEC);
+                r.count("scripted_get_immutable_lookups");
+                (got, "get")
+            }
         };
         let trace = w.trace_from(0);
         w.set_trace(TraceLevel::Off);
